@@ -1,6 +1,7 @@
 import OpcuaModel.Model.ChunkMsg
 import OpcuaModel.Model.ChunkLen
 import OpcuaModel.Props.C38
+import OpcuaModel.Model.ChunkRef
 /-
   C07 — secure-channel chunking round-trips every message under every policy
   and mode.
@@ -22,7 +23,7 @@ import OpcuaModel.Props.C38
   primitives with reference AES-CBC / HMAC and compares bytes with gopcua.
 -/
 namespace Opcua.Props.C07
-open Opcua Opcua.Chunk
+open Opcua Opcua.Chunk Opcua.Keys Opcua.CryptoRef Opcua.ChunkRef
 
 /-- What is assumed about the primitives of one direction (`cS` on the sending
     side, `cR` on the receiving side) for the parameter row `a`. -/
@@ -89,6 +90,27 @@ theorem C07_roundtrip (a : AlgoParams) (ha : a ∈ Gen.symmetricRows) (m : Mode)
   obtain ⟨ws, h1, -, h3, -⟩ := message_roundtrip (paired_of_row a ha m pS pR cS cR hc) insts lim
     (maxBody a cs) (maxBody_pos a ha cs h hcs).1 chan tok req hchan hreq hi seq hseq body hb t ht hcount hsize
   exact ⟨ws, _, h1, seqAfter_inv _ _ hseq, h3⟩
+
+/-- SESSION ROUND TRIP.  Any number of messages sent one after the other over
+    the same channel instance — the sequence counter threads through, including
+    its wrap-around (… → 1) and the step 2^32-1 → 0 — are received, by calling
+    `Receive` again and again on the stream of chunks, as the same sequence of
+    (request id, channel id, body); the counter stays a `uint32`.  Request ids may
+    repeat; every message individually respects the receiver's limits. -/
+theorem C07_session_roundtrip (a : AlgoParams) (ha : a ∈ Gen.symmetricRows) (m : Mode) (pS pR : Bool)
+    (cS cR : Crypto) (hc : CryptoOK a cS cR) (cs : Int) (h : 8192 ≤ cs) (hcs : cs < 4294967296)
+    (insts : Nat → List Side) (lim : Limits) (chan tok : Nat) (hchan : chan < 4294967296)
+    (hi : ∃ rest, (insts chan).reverse = ⟨m, pR, a, cR⟩ :: rest)
+    (msgs : List (Nat × Bytes)) (t : Table)
+    (hm : ∀ x ∈ msgs, x.1 < 4294967296 ∧ x.2.length < 4294967296 ∧ t x.1 = [] ∧
+      (lim.maxChunkCount = 0 ∨ x.2.length / maxBody a cs ≤ lim.maxChunkCount) ∧
+      (lim.maxMessageSize = 0 ∨ x.2.length ≤ lim.maxMessageSize))
+    (seq : Int) (hseq : SeqInv seq) :
+    ∃ wire seq', sendSession ⟨m, pS, a, cS⟩ (maxBody a cs) chan tok seq msgs = (seq', .ok wire) ∧ SeqInv seq' ∧
+      receiveMany insts lim wire.length t wire = msgs.map (fun x => .ok ⟨x.1, chan, x.2⟩) := by
+  obtain ⟨wire, sq, h1, h2, -, h4⟩ := session_roundtrip (paired_of_row a ha m pS pR cS cR hc) insts lim
+    (maxBody a cs) (maxBody_pos a ha cs h hcs).1 chan tok hchan hi msgs t hm seq hseq
+  exact ⟨wire, sq, h1, h2, h4 _ (Nat.le_refl _)⟩
 
 /-- number of chunks: `|body| / maxBody + 1`; in particular a body that is an
     exact multiple `k · maxBody` is sent as `k + 1` chunks -/
@@ -231,6 +253,14 @@ theorem C07_counter_zero_ok :
   refine ⟨_, rfl, ?_⟩
   decide
 
+/-- a session by evaluation: three messages over one instance whose counter
+    wraps inside the second one (… 4294966271, 4294966272 | 1, 2, 3 | 4) -/
+example : ∃ wire, sendSession nullSide 4 1 1 4294966270 [(5, [1, 2, 3, 4, 5]), (6, [9, 8, 7, 6, 5, 4, 3, 2, 1]), (5, [])] =
+      (4, .ok wire) ∧ wire.length = 6 ∧
+    receiveMany (fun _ => [nullSide]) ⟨0, 0⟩ wire.length (fun _ => []) wire =
+      [.ok ⟨5, 1, [1, 2, 3, 4, 5]⟩, .ok ⟨6, 1, [9, 8, 7, 6, 5, 4, 3, 2, 1]⟩, .ok ⟨5, 1, []⟩] := by
+  refine ⟨_, rfl, ?_, ?_⟩ <;> decide
+
 /-- what the duplicate detection still does: a chunk that repeats the number of
     its predecessor is skipped (only the sender's distinct numbers make this
     harmless, `C07_seq_distinct`) -/
@@ -250,4 +280,86 @@ example : ∃ ws, sendMessage nullSide 4 0 typeMSG 7 8 9 [1, 2, 3, 4, 5, 6, 7, 8
       (some (.ok ⟨9, 7, [1, 2, 3, 4, 5, 6, 7, 8, 9]⟩), []) := by
   refine ⟨_, rfl, by decide, by decide⟩
 
+/-! ### the executed reference instance: what remains assumed about the crypto -/
+
+/-- what is still assumed about the reference AES (FIPS 197 cipher / inverse
+    cipher of `Model/CryptoRef.lean`): on 16-byte blocks, for 16- and 32-byte
+    keys, the inverse cipher undoes the cipher and the cipher keeps the length -/
+def AesBlockOK : Prop :=
+  ∀ key : Bytes, (key.length = 16 ∨ key.length = 32) → Cbc.BlockInv (aesE key) (aesD key)
+
+/-- what is still assumed about the reference HMAC: its output has the hash length -/
+def HmacLenOK : Prop := ∀ alg key m, (hmac alg key m).length = alg.outLen
+
+theorem refCrypto_ok_of (a : AlgoParams) (ka : KeyAssign) (S R : SymKeys)
+    (h1 : a.signatureLength.toNat = ka.signatureHash.outLen) (h2 : ka.verifyHash = ka.signatureHash)
+    (h3 : R.verifyKey = S.signKey) (h4 : a.plaintextBlockSize.toNat = 16) (h5 : a.blockSize.toNat = 16)
+    (h6 : S.encryptKey.length = ka.encryptKeyBits / 8)
+    (h7 : ka.encryptKeyBits / 8 = 16 ∨ ka.encryptKeyBits / 8 = 32) (h8 : S.encryptIV.length = 16)
+    (h9 : R.decryptKey = S.encryptKey) (h10 : R.decryptIV = S.encryptIV)
+    (hlen : HmacLenOK) (haes : AesBlockOK) : CryptoOK a (refCrypto ka S) (refCrypto ka R) := by
+  constructor
+  · intro m
+    refine ⟨hmac ka.signatureHash S.signKey m, rfl, ?_, ?_⟩
+    · rw [hlen, h1]
+    · simp [refCrypto, h2, h3]
+  · intro p hp0 hpm
+    rw [h4] at hpm
+    have hk : (S.encryptKey ++ List.replicate (ka.encryptKeyBits / 8) 0).take (ka.encryptKeyBits / 8) = S.encryptKey := by
+      rw [List.take_append_of_le_length (by omega), List.take_of_length_le (by omega)]
+    have hkl : S.encryptKey.length = 16 ∨ S.encryptKey.length = 32 := by omega
+    have hinv := haes S.encryptKey hkl
+    have hcl := Cbc.enc_length _ _ hinv S.encryptIV p h8 hpm
+    refine ⟨Cbc.cbcEnc (aesE S.encryptKey) S.encryptIV p, ?_, ?_, ?_⟩
+    · simp only [refCrypto, aesEncrypt, hk]
+      rw [if_neg (by omega), if_neg (by omega)]
+    · rw [hcl, h4, h5]; omega
+    · simp only [refCrypto, aesDecrypt, h9, h10]
+      rw [if_neg (by omega), if_neg (by omega), if_neg (by omega)]
+      rw [Cbc.dec_enc _ _ hinv S.encryptIV p h8 hpm]
+
+/-- THE EXECUTED INSTANCE SATISFIES THE CONTRACT.  For every policy row with
+    keys, all nonces: the primitives the drivers run (`refCrypto`: the proved CBC
+    mode over the reference AES block functions, reference HMAC, keys by the
+    model of `uapolicy.Symmetric`) satisfy `CryptoOK` between a side and its peer
+    — given only the AES block inverse and the HMAC output length.  CBC
+    (`Cbc.dec_enc`, `Cbc.enc_length`), the key lengths (`generateKeys_lengths`)
+    and the send/receive key pairing are proved. -/
+theorem C07_reference_crypto_ok (a : AlgoParams) (ka : KeyAssign)
+    (hk : (a, ka) ∈ Gen.symmetricRows.zip Gen.keyAssignRows) (hlen : HmacLenOK) (haes : AesBlockOK) (x y : Bytes) :
+    CryptoOK a (refCrypto ka (symmetric ka hmac x y)) (refCrypto ka (symmetric ka hmac y x)) := by
+  have gl : ∀ (alg : HashAlg) (key seed : Bytes) (p q r : Nat),
+      (generateKeys (hmac alg key) seed p q r).encryption.length = q ∧
+      (generateKeys (hmac alg key) seed p q r).iv.length = r := by
+    intro alg key seed p q r
+    have := generateKeys_lengths (hmac alg key) seed alg.outLen (by cases alg <;> decide) (hlen alg key) p q r
+    exact ⟨this.2.1, this.2.2⟩
+  simp only [Gen.symmetricRows, Gen.keyAssignRows, List.zip_cons_cons, List.zip_nil_right, List.mem_cons,
+    List.not_mem_nil, or_false, Prod.mk.injEq] at hk
+  rcases hk with ⟨rfl, rfl⟩ | ⟨rfl, rfl⟩ | ⟨rfl, rfl⟩ | ⟨rfl, rfl⟩ | ⟨rfl, rfl⟩ <;>
+    refine refCrypto_ok_of _ _ _ _ (by decide) rfl rfl (by decide) (by decide) ?_ (by decide) ?_ rfl rfl hlen haes <;>
+    first
+      | exact (gl _ _ _ _ _ _).1
+      | exact (gl _ _ _ _ _ _).2
+
+/-- ROUND TRIP FOR THE EXECUTED INSTANCE: `C07_roundtrip` with the reference
+    primitives plugged in; the remaining cryptographic assumptions are exactly
+    `AesBlockOK` and `HmacLenOK`. -/
+theorem C07_roundtrip_reference (a : AlgoParams) (ka : KeyAssign)
+    (hk : (a, ka) ∈ Gen.symmetricRows.zip Gen.keyAssignRows) (hlen : HmacLenOK) (haes : AesBlockOK)
+    (x y : Bytes) (m : Mode) (cs : Int) (h : 8192 ≤ cs) (hcs : cs < 4294967296)
+    (lim : Limits) (chan tok req : Nat) (hchan : chan < 4294967296) (hreq : req < 4294967296)
+    (seq : Int) (hseq : SeqInv seq) (body : Bytes) (hb : body.length < 4294967296)
+    (hcount : lim.maxChunkCount = 0 ∨ body.length / maxBody a cs ≤ lim.maxChunkCount)
+    (hsize : lim.maxMessageSize = 0 ∨ body.length ≤ lim.maxMessageSize) :
+    ∃ ws seq', sendMessage ⟨m, false, a, refCrypto ka (symmetric ka hmac x y)⟩ (maxBody a cs) seq typeMSG chan tok req body =
+        (seq', .ok ws) ∧
+      (receiveAll (fun _ => [⟨m, false, a, refCrypto ka (symmetric ka hmac y x)⟩]) lim (fun _ => []) ws).2 =
+        (some (.ok ⟨req, chan, body⟩), []) := by
+  have ha : a ∈ Gen.symmetricRows := (List.of_mem_zip hk).1
+  obtain ⟨ws, sq, h1, -, h3⟩ := C07_roundtrip a ha m false false _ _ (C07_reference_crypto_ok a ka hk hlen haes x y)
+    cs h hcs (fun _ => [⟨m, false, a, refCrypto ka (symmetric ka hmac y x)⟩]) lim chan tok req hchan hreq ⟨[], rfl⟩
+    seq hseq body hb (fun _ => []) rfl hcount hsize
+  exact ⟨ws, sq, h1, by rw [h3]⟩
 end Opcua.Props.C07
+
